@@ -4,6 +4,7 @@ import (
 	"fmt"
 	"io"
 	"os"
+	"path/filepath"
 
 	"github.com/tormoder/fit"
 
@@ -21,7 +22,7 @@ func registerC11() {
 			"files, and chains of 2-3 of them; for every stream EVERY byte offset c in [0, len] x {clean cut, injected non-EOF read error from c on: a private sentinel, io.ErrUnexpectedEOF, io.ErrClosedPipe, os.ErrClosed} x six entry points x " +
 			"{1-byte reads, greedy reads} is executed: c before the entry point's needed prefix => a non-nil error and (Decode, DecodeChained) a partial File holding exactly " +
 			"the messages of the records complete before c; c at or after it => the intact result; at every other offset Decode / DecodeChained run with all options on (second chunker): same error and messages, and the unknown-field / unknown-message lists of the partial File must lie between the model of the complete records and the model including the record in flight; clean EOF exactly on a file boundary of a chain => the files before it and " +
-			"nil; a fault on a boundary => error. Family large-streams: model streams of 9-40 KB (several refills of the decoder's 4096-byte buffer) cut/faulted at every offset within 40 bytes of a multiple of 4096, within 64 bytes of either end, and at every 211th offset in between, under 1000-byte and greedy chunkers, same oracle. A case is one (stream, offset, kind, entry point, chunker) execution; non-trivial: c lies strictly inside the stream; distinct by construction",
+			"nil; a fault on a boundary => error. The same cuts are also made on disk and read through *os.File (every third offset). Family large-streams: model streams of 9-40 KB (several refills of the decoder's 4096-byte buffer) cut/faulted at every offset within 40 bytes of a multiple of 4096, within 64 bytes of either end, and at every 211th offset in between, under 1000-byte and greedy chunkers, same oracle. A case is one (stream, offset, kind, entry point, chunker) execution; non-trivial: c lies strictly inside the stream; distinct by construction",
 		Assume:        []string{"partial content is compared on message slots (the file_id of a file whose file_id record is incomplete is not defined)"},
 		MinNontrivial: 5000,
 		Families: []lib.Family{
@@ -202,6 +203,51 @@ func c11Run(c *lib.Ctx, rng *lib.Rand, idx uint64, nfiles int, large bool) {
 					}
 				}
 			}
+		}
+	}
+	// The same cuts with the prefix in a file on disk read through *os.File (a reader that can
+	// also Seek, Stat and ReadAt: whatever a decoder does with that knowledge, a truncated file
+	// is judged like any other truncated stream). Every third offset and the intact stream.
+	dir := filepath.Join(lib.OutDir(), "work", "C11-files")
+	os.MkdirAll(dir, 0o755)
+	path := filepath.Join(dir, fmt.Sprintf("cut-%d-%d.fit", os.Getpid(), idx))
+	defer os.Remove(path)
+	for cut := 0; cut <= len(stream); cut++ {
+		if cut%3 != int(idx%3) && cut != len(stream) {
+			continue
+		}
+		if large && cut%4096 > 40 && cut%4096 < 4096-40 && cut%211 != 0 && cut != len(stream) {
+			continue
+		}
+		if os.WriteFile(path, stream[:cut], 0o644) != nil {
+			break
+		}
+		for _, ep := range []string{"Decode", "DecodeChained", "CheckIntegrity", "DecodeHeaderAndFileID"} {
+			fh, err := os.Open(path)
+			if err != nil {
+				break
+			}
+			var res lib.CallResult
+			c11WithOpts = false
+			o := lib.Guard(func() { res = lib.Call(ep, fh) })
+			fh.Close()
+			c.Eval()
+			where := fmt.Sprintf("%s on an *os.File holding the first %d of %d bytes", ep, cut, len(stream))
+			if o.Panicked || o.Hang {
+				c.Violation(stream, "%s: panicked/hung: %s", where, o.Panic)
+				return
+			}
+			if cut == len(stream) {
+				if res.Err != nil && intact[ep].Err == nil {
+					c.Violation(stream, "%s: error %v on the intact stream", where, res.Err)
+					return
+				}
+				continue
+			}
+			if !c11Judge(c, stream, where, ep, cut, false, need[ep], res, intact[ep], files, bounds) {
+				return
+			}
+			c.Count("cuts_read_through_os_file", 1)
 		}
 	}
 	n := int64(noffsets-1) * int64(len(faultKinds)) * int64(len(lib.EntryPoints)) * int64(len(chunkers))
